@@ -265,12 +265,25 @@ func (x *Exec) evalSpec(st *State, fr *Frame, e Expr, sc *scope) (Val, error) {
 		a, b = x.unifyNil(a, b)
 		return Val{T: Ite(cnd, a.T, b.T), Typ: a.Typ}, nil
 	case EQuant:
+		// a chain of same-kind quantifiers becomes one quantifier with a multi-pattern made of the
+		// array reads that mention the bound variables (keeps E-matching cheap and predictable)
 		c := sc.child()
-		x.nquant++
-		name := fmt.Sprintf("%s_q%d", e.Var, x.nquant)
-		sort, typ := x.specSort(e.Sort)
-		c.vars[e.Var] = Val{T: Term{name, sort}, Typ: typ}
-		body, err := x.evalBool(st, fr, e.Body, c)
+		var names, sorts []string
+		cur := Expr(e)
+		for {
+			q, ok := cur.(EQuant)
+			if !ok || q.Forall != e.Forall {
+				break
+			}
+			x.nquant++
+			name := fmt.Sprintf("%s_q%d", q.Var, x.nquant)
+			sort, typ := x.specSort(q.Sort)
+			c.vars[q.Var] = Val{T: Term{name, sort}, Typ: typ}
+			names = append(names, name)
+			sorts = append(sorts, sort)
+			cur = q.Body
+		}
+		body, err := x.evalBool(st, fr, cur, c)
 		if err != nil {
 			return Val{}, err
 		}
@@ -278,7 +291,18 @@ func (x *Exec) evalSpec(st *State, fr *Frame, e Expr, sc *scope) (Val, error) {
 		if e.Forall {
 			q = "forall"
 		}
-		return Val{T: Term{fmt.Sprintf("(%s ((%s %s)) %s)", q, name, sort, body.S), SBool}}, nil
+		var binders []string
+		for i := range names {
+			binders = append(binders, fmt.Sprintf("(%s %s)", names[i], sorts[i]))
+		}
+		pat := ""
+		if e.Forall {
+			pat = quantPattern(body.S, names)
+		}
+		if pat != "" {
+			return Val{T: Term{fmt.Sprintf("(%s (%s) (! %s :pattern (%s)))", q, strings.Join(binders, " "), body.S, pat), SBool}}, nil
+		}
+		return Val{T: Term{fmt.Sprintf("(%s (%s) %s)", q, strings.Join(binders, " "), body.S), SBool}}, nil
 	case EUnary:
 		v, err := x.evalSpec(st, fr, e.X, sc)
 		if err != nil {
@@ -418,6 +442,21 @@ func (x *Exec) evalSel(st *State, fr *Frame, e ESel, sc *scope) (Val, error) {
 		}
 		return Val{T: x.ghost(w, e.Name)}, nil
 	}
+	// pkg.Name: a constant or variable of a package imported by the function's package
+	if id, ok := e.X.(EIdent); ok && fr != nil && fr.fn.Pkg != nil {
+		if _, err := x.lookupIdent(st, fr, id.Name, sc.child()); err != nil {
+			for _, imp := range fr.fn.Pkg.Pkg.Imports() {
+				if imp.Name() != id.Name {
+					continue
+				}
+				if sp := x.P.SSA.Package(imp); sp != nil && sp.Members[e.Name] != nil {
+					c := sc.child()
+					c.pkg = sp
+					return x.lookupIdent(st, nil, e.Name, c)
+				}
+			}
+		}
+	}
 	xv, err := x.evalSpec(st, fr, e.X, sc)
 	if err != nil {
 		return Val{}, err
@@ -533,6 +572,15 @@ func (x *Exec) indexVal(st *State, sc *scope, xv, iv Val) (Val, error) {
 }
 
 func (x *Exec) evalCall(st *State, fr *Frame, e ECall, sc *scope) (Val, error) {
+	if e.Fun == "local" && e.Recv == nil && len(e.Args) == 1 {
+		// local(name): the function's own variable of that name, even when a spec name (err, result)
+		// shadows it
+		if id, ok := e.Args[0].(EIdent); ok {
+			c := sc.child()
+			delete(c.vars, id.Name)
+			return x.lookupIdent(st, fr, id.Name, c)
+		}
+	}
 	var args []Val
 	if e.Recv != nil {
 		// W(ctx).ghost handled in evalSel; method-style calls: treat x.f(args) as f(x, args)
@@ -605,6 +653,21 @@ func (x *Exec) evalCall(st *State, fr *Frame, e ECall, sc *scope) (Val, error) {
 			return Val{T: x.bytesOfIn(x.heapFor(st, sc), args[0].T)}, nil
 		}
 		return Val{}, fmt.Errorf("bytes() of %s", args[0].T.Sort)
+	case "tdiv":
+		// Go's truncated integer division, encoded exactly like the executor encodes math.Int.Quo
+		return Val{T: x.truncDiv(x.intOf(args[0]), x.intOf(args[1]), false, nil)}, nil
+	case "ratnum", "ratden", "ratok":
+		// the deterministic parse of a rational number string (big.Rat.SetString)
+		x.D.DeclareFun("rat.parse.ok", []string{SStr}, SBool)
+		x.D.DeclareFun("rat.parse.num", []string{SStr}, SInt)
+		x.D.DeclareFun("rat.parse.den", []string{SStr}, SInt)
+		switch e.Fun {
+		case "ratnum":
+			return Val{T: App(SInt, "rat.parse.num", args[0].T)}, nil
+		case "ratden":
+			return Val{T: App(SInt, "rat.parse.den", args[0].T)}, nil
+		}
+		return Val{T: App(SBool, "rat.parse.ok", args[0].T)}, nil
 	case "aserror":
 		// aserror(x): x converted to the error interface, exactly as the compiler boxes it at a call
 		if args[0].T.Sort == SIface {
@@ -620,6 +683,22 @@ func (x *Exec) evalCall(st *State, fr *Frame, e ECall, sc *scope) (Val, error) {
 			return *args[0].Dyn, nil
 		}
 		return Val{}, fmt.Errorf("payload(): dynamic value of the interface is not statically known")
+	case "lastret":
+		// lastret("pattern"): the value the most recent call to a matching callee returned on this path
+		// (for several results: the last one, i.e. the error)
+		if lit, ok := e.Args[0].(EStr); ok && st != nil {
+			for _, k := range sortedKeys(st.meta) {
+				if strings.HasPrefix(k, "ret:") && matchCallee(lit.V, k[4:]) {
+					v := st.meta[k]
+					if len(v.Tup) > 0 {
+						return v.Tup[len(v.Tup)-1], nil
+					}
+					return v, nil
+				}
+			}
+			return Val{}, fmt.Errorf("lastret: no call to %s on this path", lit.V)
+		}
+		return Val{}, fmt.Errorf("lastret needs a string literal")
 	case "ncalls":
 		// ncalls("pattern"): number of calls made so far on this path to callees matching the pattern
 		if lit, ok := e.Args[0].(EStr); ok && st != nil {
@@ -684,4 +763,71 @@ type specFun struct {
 	smtName string
 	args    []string
 	res     string
+}
+
+func (x *Exec) intOf(v Val) Term {
+	if v.T.Sort == SMInt {
+		return App(SInt, "mint.v", v.T)
+	}
+	return v.T
+}
+
+// quantPattern picks, for every bound variable, the smallest `(select ...)` sub-term of the body that
+// mentions it; the multi-pattern is the set of those terms. Empty when some variable has none.
+func quantPattern(body string, vars []string) string {
+	var sels []string
+	for i := 0; i+8 <= len(body); i++ {
+		if !strings.HasPrefix(body[i:], "(select ") {
+			continue
+		}
+		depth := 0
+		for j := i; j < len(body); j++ {
+			if body[j] == '(' {
+				depth++
+			} else if body[j] == ')' {
+				depth--
+				if depth == 0 {
+					sels = append(sels, body[i:j+1])
+					break
+				}
+			}
+		}
+	}
+	mentions := func(t, v string) bool {
+		for k := 0; k+len(v) <= len(t); k++ {
+			if t[k:k+len(v)] == v {
+				before := k == 0 || t[k-1] == ' ' || t[k-1] == '('
+				after := k+len(v) == len(t) || t[k+len(v)] == ' ' || t[k+len(v)] == ')'
+				if before && after {
+					return true
+				}
+			}
+		}
+		return false
+	}
+	chosen := map[string]bool{}
+	var out []string
+	for _, v := range vars {
+		best := ""
+		for _, t := range sels {
+			if !mentions(t, v) {
+				continue
+			}
+			// a pattern may not contain other quantifier binders (nested quantifiers in the term)
+			if strings.Contains(t, "(forall ") || strings.Contains(t, "(exists ") {
+				continue
+			}
+			if best == "" || len(t) < len(best) {
+				best = t
+			}
+		}
+		if best == "" {
+			return ""
+		}
+		if !chosen[best] {
+			chosen[best] = true
+			out = append(out, best)
+		}
+	}
+	return strings.Join(out, " ")
 }
